@@ -1091,6 +1091,12 @@ func isLocalRedirectPath(target string) bool {
 	if len(target) > 1 && (target[1] == '/' || target[1] == '\\') {
 		return false
 	}
+	// Browsers drop TAB, CR and LF from a URL before resolving it, so "/\t/host" is "//host" to them.
+	for i := 0; i < len(target); i++ {
+		if target[i] < 0x20 || target[i] == 0x7f {
+			return false
+		}
+	}
 	return true
 }
 
